@@ -902,17 +902,22 @@ class Executor:
     def e_Await(self, node, frame):
         v = self.eval(node.value, frame)
         v = self.lib.await_value(self, v, frame, node)
-        self.interference(frame, node)
+        if not frame.func.is_spec:
+            # awaits inside contract/model code are not suspension points of
+            # the program under verification
+            self.interference(frame, node)
         return v
 
-    def interference(self, frame, node):
+    def interference(self, frame, node, cancel=True):
         """an await is an interference point: other tasks may run (rely),
         and the task may be cancelled here"""
         self.await_count += 1
         hook = self.opt.get("rely")
         if hook is not None:
             hook(self, frame, node)
-        if self.opt.get("cancellation"):
+        if cancel and self.opt.get("cancellation") and "cancelled_at" not in self.ghost:
+            # one cancellation per run: a second one while the clean-up
+            # code runs is outside the properties
             if self.choose(2, f"cancelled at await #{self.await_count} "
                               f"(line {node.lineno})") == 1:
                 import asyncio
@@ -1304,8 +1309,11 @@ class Executor:
         cm = self.eval(item.context_expr, frame)
         enter, exit_ = self.lib.context_manager(self, cm, frame, node)
         v = enter()
-        if isinstance(node, ast.AsyncWith):
-            self.interference(frame, node)
+        if isinstance(node, ast.AsyncWith) and not frame.func.is_spec:
+            # other tasks ran while __aenter__ was awaited; a cancellation is
+            # delivered *inside* __aenter__ (at its own awaits), there is no
+            # suspension point between its return and the body
+            self.interference(frame, node, cancel=False)
         if item.optional_vars is not None:
             self.assign(item.optional_vars, v, frame)
         try:
